@@ -930,6 +930,24 @@ pub fn scale_family(thorough: bool) -> Vec<(String, &'static str, Vec<String>)> 
     out
 }
 
+/// Prefilter / alignment family: one pattern per start-predicate kind (one, two, three bytes, a first-byte
+/// bitmap, a literal prefix, a non-ASCII literal) against haystacks whose first candidate sits after 0..=26
+/// padding characters of each UTF-8 length; every start offset is explored, which also moves the search
+/// pointer through every alignment.
+pub fn alignment_family() -> Vec<(String, &'static str, Vec<String>)> {
+    let pats: Vec<(&str, &str)> = vec![("[\\u0400-\\u04FF]", ""), ("[\\u0400-\\u04FF]+x", "u"), ("[a-dxyz]", ""), ("x", ""), ("[xy]", ""), ("[xyz]", ""), ("xy", ""), ("\\u0434", ""), ("[\\u0434\\u0436]x", ""), ("xy", "i"), ("[\\u0400-\\u04FF\\u{1F600}]x", "u"), ("(?:\\u0434|x)y", "")];
+    let mut hays: Vec<String> = Vec::new();
+    for pad in ["-", "é", "€", "😀", "€-", "😀é"] {
+        for k in 0..=26usize {
+            hays.push(format!("{}дxy", pad.repeat(k)));
+            if k % 3 == 0 {
+                hays.push(format!("{}xyд{}дx", pad.repeat(k), pad.repeat(k)));
+            }
+        }
+    }
+    pats.into_iter().map(|(p, f)| (p.to_string(), f, hays.clone())).collect()
+}
+
 /// Run one property over a list of profiles. Returns merged statistics.
 pub fn run(run: &mut Run, prop: Prop, profile_names: &[&str]) -> Stats {
     let thorough = run.thorough();
@@ -946,21 +964,25 @@ pub fn run(run: &mut Run, prop: Prop, profile_names: &[&str]) -> Stats {
         let fam = scale_family(thorough);
         let known = &run.known;
         let cfg = Cfg { sparse_starts: true, fuel: 4_000_000, ..cfg };
+        let cfg_full = Cfg { sparse_starts: false, fuel: 4_000_000, ..cfg };
+        let nscale = fam.len();
+        let fam: Vec<(String, &'static str, Vec<String>, bool)> = fam.into_iter().map(|(p, f, h)| (p, f, h, true)).chain(alignment_family().into_iter().map(|(p, f, h)| (p, f, h, false))).collect();
         let t0 = std::time::Instant::now();
         let t = fam
             .par_iter()
-            .fold(Stats::default, |mut st, (p, f, hs)| {
+            .map(|(p, f, hs, sparse)| (p, f, hs, if *sparse { &cfg } else { &cfg_full }))
+            .fold(Stats::default, |mut st, (p, f, hs, cfg)| {
                 let pat: Vec<u32> = p.chars().map(|c| c as u32).collect();
                 let fl = Flags::parse(f);
                 let hays: Vec<Hay> = hs.iter().filter(|h| prop != Prop::C13 || h.is_ascii()).map(|h| Hay::new(h.chars().map(|c| c as u32).collect())).collect();
                 match crate::refparse::parse(&pat, fl) {
-                    Ok(ast) => eval_pattern_text(&cfg, &ast, pat, fl, &hays, known, &mut st),
+                    Ok(ast) => eval_pattern_text(cfg, &ast, pat, fl, &hays, known, &mut st),
                     Err(e) => st.error(format!("scale family pattern /{}/{} is outside the reference grammar: {}", p.chars().take(60).collect::<String>(), f, e)),
                 }
                 st
             })
             .reduce(Stats::default, Stats::merge);
-        println!("  {} size-parameterised family: patterns={} cases={} violations={} ({:.1}s)", prop.id(), fam.len(), t.get("evaluations"), t.total_violations(), t0.elapsed().as_secs_f64());
+        println!("  {} size-parameterised + alignment families: patterns={}+{} cases={} violations={} ({:.1}s)", prop.id(), nscale, fam.len() - nscale, t.get("evaluations"), t.total_violations(), t0.elapsed().as_secs_f64());
         run.extra.push(("size_parameterised_family".into(), J::obj().set("patterns", J::u(fam.len() as u64)).set("evaluations", J::u(t.get("evaluations"))).set("sizes", J::s("15 16 17 31 32 33 63 64 65 127 128 129 255 256 257 (thorough: + 511..513, 1023..1025)"))));
         total = total.merge(t);
     }
